@@ -902,6 +902,13 @@ class ClientFrames:
             pk = pycodec.decode_stream(fr)
         except Exception:   # noqa
             self.pend.pop(t, None)
+            # 'undecodable' only when the header parsed and the attachments do not reconstruct the payload;
+            # a header this independent (strict) codec rejects may still be one the library legitimately accepts
+            try:
+                if isinstance(fr[0], str) and pycodec.decode_text(fr[0])['natt'] > 0:
+                    return 'undecodable'
+            except Exception:   # noqa
+                pass
             return None
         if pk and pk[-1]['type'] == 'incomplete':
             self.pend[t] = fr
